@@ -25,10 +25,14 @@ import numpy as np
 from common import *
 
 IMPORTS = "From CV Require Import Base.Cmp Model.C09_Gibbs.\nFrom Coq Require Import QArith.\nLocal Open Scope Q_scope."
-RULE = ("joint targets with 2-4 blocks (dims 1-2), random parent sets (cycles allowed), 0-2 data factors; cells = interface x "
-        "sampler assignment x step counts x call sequence (sample / warm-up+sample / repeated calls / refused calls); values "
-        "inside cells from the seed. distinct = distinct (target, assignment, script, call sequence); trivial = none "
-        "(oracle-only cells, whose Coq term is `true`, are marked trivial and not counted)")
+RULE = ("joint targets with 2-4 blocks (dims 1-2, par_names order shuffled), random parent sets (cycles allowed), 0-2 data factors "
+        "(likelihoods); 14 HybridGibbs cells (recording / experimental MH / Direct / NUTS-branch samplers and mixtures x per-block step counts "
+        "1-3 incl. missing keys and None x call sequences: sample, repeated sample, warm-up(tune_freq 0.1/0.25/0.5/1.0)+sample, "
+        "warm-up twice; default, array and plain-number initial points) and 9 legacy cells (recording / cuqi.sampler.MH, tuple keys, "
+        "warm-up+sample, continuation over 2-3 calls, refused second warm-up, refused continuation after a warm-up-only call); values "
+        "inside cells from the seed; 2 fixed witnesses always run. Per run one case for the whole trace, plus (MH blocks) one for the "
+        "cached evaluations and (plain-number initial points) one for get_samples. distinct = distinct (target, assignment, script, "
+        "call sequence, check); trivial = the 4 oracle-only cells (MALA/ULA/CWMH/PCN cache oracle, Coq term `true`)")
 
 SIG_STALE = "HybridGibbs.step|restored-cached-target-evaluation-of-previous-conditional:%s"
 NAMES = ["x", "s", "d", "w"]
@@ -871,6 +875,16 @@ WITNESS = {
                [[{"vec": [-2.0], "u": 0.9375, "acc": 1}], [{"vec": [0.0], "u": 0.5, "acc": 1}]]],
 }
 
+# a dimension-1 MH block started from a plain number (as tests/zexperimental/test_mcmc.py does: MH(initial_point=3)):
+# sweep 0 rejects (x stays the 0-d number), sweep 1 "accepts" x* = x + 0 (now a 1-d array): the stored list mixes shapes
+WITNESS_GETS = {
+    "iface": "hybrid", "cell": "witness/get_samples-scalar-initial-point",
+    "spec": WITNESS["spec"], "kinds": ["KMH", "KRec"], "num_steps": None, "ops": [["sample", 2]], "scales": [1.0, 1.0],
+    "inits": [[1.0], [2.0]], "init_scalar": [True, False], "probes": [[[0.0], [1.0]], [[0.0], [1.0]]],
+    "script": [[[{"vec": [4.0], "u": 0.9375, "acc": 1}], [{"vec": [2.0], "u": None, "acc": 1}]],
+               [[{"vec": [0.0], "u": 0.5, "acc": 1}], [{"vec": [2.0], "u": None, "acc": 1}]]],
+}
+
 _STATE = {}
 
 
@@ -976,15 +990,16 @@ def run(ctx):
     fresh, detail = tree_variant(ctx)
     ctx.note("HybridGibbs on this tree %s cached target evaluations when re-conditioning (model variant fresh=%s)" % ("REFRESHES" if fresh else "restores stale", fresh))
     cases = []
-    reps = ctx.n(10, 60)
+    reps = ctx.n(10, 150)
     for cell in HY_CELLS:
         for _ in range(reps):
             cases += make_cases(gen_hybrid(rng, cell), fresh)
     for cell in LG_CELLS:
         for _ in range(reps):
             cases += make_cases(gen_legacy(rng, cell), fresh)
-    # the fixed witness as a regular case as well
+    # the fixed witnesses as regular cases as well
     cases += make_cases(dict(WITNESS), fresh)
+    cases += make_cases(dict(WITNESS_GETS), fresh)
     # oracle-only cells (no Coq model of these kernels): which other cached fields are restored stale
     for which in ("MALA", "ULA", "CWMH", "PCN"):
         d = cache_probe_real(which)
@@ -1026,6 +1041,8 @@ def known_witnesses(ctx):
     classes()
     fresh, detail = tree_variant(ctx)
     out = {SIG_STALE % "MH": (not fresh, detail)}
+    d = oracle_get_samples(WITNESS_GETS, run_hybrid(WITNESS_GETS))
+    out[SIG_GETS] = (d is not None, d or "get_samples() returns the stored sweeps")
     for which in ("MALA", "ULA", "CWMH", "PCN"):
         d = cache_probe_real(which)
         out[SIG_STALE % which] = (d is not None, d or "cached evaluations are refreshed")
